@@ -243,7 +243,9 @@ func VerifC02Embedded2(tmpl string, viaMap bool) {
 		return
 	}
 	vrt.Cover("success")
-	vrt.Observe("out", out)
+	if !viaMap {
+		vrt.Observe("out", out) // a map fallback is written in Go's random iteration order
+	}
 	vrt.Assert("C02/embedded/output-is-one-valid-value", zzspec.ValidText(out, true, true, 10000))
 }
 
@@ -271,6 +273,8 @@ func VerifC02Embedded(tmpl string, viaMap, allowUTF8 bool) {
 		return
 	}
 	vrt.Cover("success")
-	vrt.Observe("out", out)
+	if !viaMap {
+		vrt.Observe("out", out) // a map fallback is written in Go's random iteration order
+	}
 	vrt.Assert("C02/embedded/output-is-one-valid-value", zzspec.ValidText(out, !allowUTF8, true, 10000))
 }
